@@ -107,10 +107,13 @@ theorem edgesOf_lt (ms : List Module) (m : Module) : ∀ w ∈ edgesOf ms m, w <
   · obtain ⟨i, _, hi⟩ := List.mem_filterMap.1 hw
     unfold inputEdge at hi
     split at hi
-    · cases hi
     · split at hi
       · cases hi
       · exact lookupIdx_lt hi
+    · split at hi
+      · cases hi
+      · exact lookupIdx_lt hi
+    · cases hi
   · split at hw
     · cases hw
     · rename_i bf _
